@@ -126,6 +126,36 @@ def inproc(R, dud, drv, rng, tier, runs):
     shutil.rmtree(base, ignore_errors=True)
 
 
+def sequential_search(R, plain, drv, diverged):
+    """search for a concrete failing input when model and implementation disagree: run the same history again with
+    one worker and GOMAXPROCS=1; a different result is a violation of the property itself (the pooled run is not
+    'the result of processing the entries one at a time')"""
+    import copy
+    for run in diverged[:4]:
+        c = copy.deepcopy(run["case"])
+        if c["pool"][:2] == (0, 1) and c["pool"][2] == 1:
+            continue
+        c["id"] = c["id"] + "-seq"
+        c["env"] = dict(c["env"], DUD_VERIF_SHARED="0", DUD_VERIF_DEDICATED="1", GOMAXPROCS="1")
+        seq_runs, _ = s1.run_cases(plain, drv, [c])
+        if not seq_runs or seq_runs[0].get("error"):
+            continue
+        diffs = []
+        for a, b in zip(run["steps"], seq_runs[0]["steps"]):
+            what = s1.op_text(a["op"])
+            if (a["rc"] == 0) != (b["rc"] == 0):
+                diffs.append("`%s`: exit %d with pool %s, %d with one worker" % (what, a["rc"], run["case"]["pool"], b["rc"]))
+                break
+            if a["snap"]["lines"] != b["snap"]["lines"] or a["snap"]["cache"] != b["snap"]["cache"]:
+                diffs.append("`%s`: workspace / cache / recorded checksums differ between pool %s and one worker" % (what, run["case"]["pool"]))
+            if a["op"][0] == "status" and sorted(a["status"]) != sorted(b["status"]):
+                da = set(a["status"]) ^ set(b["status"])
+                diffs.append("`%s`: status differs between pool %s and one worker (%d lines)" % (what, run["case"]["pool"], len(da)))
+        if diffs:
+            R.violation(dict(kind="property-violated-on-implementation", case=s1eval.case_json(run["case"]), describe=s1eval.describe(run["case"]),
+                             pool=list(run["case"]["pool"]), violations=diffs[:4]))
+
+
 def main(tier, replay=None):
     import json
     R = vlib.Result(PROP, tier)
@@ -153,7 +183,8 @@ def main(tier, replay=None):
         runs = runs2 + runs
     else:
         runs, traces = s1.run_cases(dud, drv, cases)
-    s1eval.evaluate(R, runs, oracle, None, lambda run: run["case"]["shape"] in ("deep", "wide"))
+    diverged = s1eval.evaluate(R, runs, oracle, None, lambda run: run["case"]["shape"] in ("deep", "wide"))
+    sequential_search(R, vlib.build_dud(), drv, diverged)
     R.cov["distribution"] = stats
     for run in runs[:2]:
         d = s1eval.describe(run["case"])
